@@ -130,7 +130,7 @@ struct Inner {
     families: BTreeMap<String, FamilyStats>,
     counters: BTreeMap<String, u64>,
     residuals: BTreeMap<String, f64>,
-    violations: Vec<(String, String, u64, Value)>, // sig, family, idx, detail
+    violations: Vec<(String, String, u64, Value, u64)>, // sig, family, idx, detail, seed of the round
     known_hits: BTreeMap<String, (u64, Value)>,
     exhaustive: BTreeMap<String, bool>,
     extra: Map<String, Value>,
@@ -146,7 +146,12 @@ pub struct KnownFinding {
 pub struct Ctx {
     pub prop: &'static str,
     pub tier: Tier,
+    /// seed of the current round (base seed in round 0)
     pub seed: u64,
+    /// VERIF_SEED as given
+    pub base_seed: u64,
+    /// index of the current round (the thorough tier repeats the seed-driven workload with derived seeds)
+    pub round: u64,
     pub replay: Option<(String, u64)>,
     pub verif_dir: String,
     start: Instant,
@@ -212,6 +217,8 @@ impl Ctx {
             prop,
             tier,
             seed,
+            base_seed: seed,
+            round: 0,
             replay,
             verif_dir,
             start: Instant::now(),
@@ -231,6 +238,17 @@ impl Ctx {
             rule: Mutex::new(String::new()),
             assumptions: Mutex::new(vec![]),
             max_samples_per_family: 2,
+        }
+    }
+
+    /// Enter round `r` of the workload: cases draw from the derived seed `base + r * 1_000_003`.
+    pub fn set_round(&mut self, r: u64) {
+        self.round = r;
+        self.seed = self.base_seed.wrapping_add(r.wrapping_mul(1_000_003));
+        let mut g = self.inner.lock().unwrap();
+        let v = g.extra.entry("round_seeds".to_string()).or_insert_with(|| json!([]));
+        if let Some(a) = v.as_array_mut() {
+            a.push(json!(self.seed));
         }
     }
 
@@ -404,7 +422,7 @@ impl Ctx {
                 } else {
                     fs.violated += 1;
                     g.violations
-                        .push((sig, case.family.to_string(), case.idx, Value::Object(d)));
+                        .push((sig, case.family.to_string(), case.idx, Value::Object(d), self.seed));
                 }
             }
         }
@@ -446,13 +464,13 @@ impl Ctx {
             }
         }
         // violations: dedupe by signature, write one replay per signature (first witness)
-        let mut by_sig: BTreeMap<String, (u64, &str, u64, &Value)> = BTreeMap::new();
-        for (sig, family, idx, detail) in &g.violations {
+        let mut by_sig: BTreeMap<String, (u64, &str, u64, &Value, u64)> = BTreeMap::new();
+        for (sig, family, idx, detail, vseed) in &g.violations {
             let e = by_sig
                 .entry(sig.clone())
-                .or_insert((0, family.as_str(), *idx, detail));
+                .or_insert((0, family.as_str(), *idx, detail, *vseed));
             e.0 += 1;
-            if *idx < e.2 && family == e.1 {
+            if *idx < e.2 && family == e.1 && *vseed == e.4 {
                 e.2 = *idx;
                 e.3 = detail;
             }
@@ -460,17 +478,18 @@ impl Ctx {
         let mut viol_json = vec![];
         let replay_dir = format!("{}/replays", self.verif_dir);
         let _ = std::fs::create_dir_all(&replay_dir);
-        for (sig, (count, family, idx, detail)) in &by_sig {
+        for (sig, (count, family, idx, detail, vseed)) in &by_sig {
             let fname = format!(
                 "{}/{}-{}-{}-{}.json",
                 replay_dir,
                 self.prop,
-                self.seed,
+                vseed,
                 family.replace('/', "_"),
                 idx
             );
+            // `seed` is the seed of the round the case ran in: replaying runs one round with it
             let body = json!({
-                "property": self.prop, "seed": self.seed, "tier": self.tier.name(),
+                "property": self.prop, "seed": vseed, "tier": self.tier.name(),
                 "family": family, "case": idx, "signature": sig, "count": count,
                 "witness": detail,
             });
@@ -524,7 +543,7 @@ impl Ctx {
         let ev = json!({
             "property_id": self.prop,
             "tier": self.tier.name(),
-            "seed": self.seed,
+            "seed": self.base_seed,
             "level": "exploration",
             "coverage": coverage,
             "assumptions": *self.assumptions.lock().unwrap(),
@@ -541,7 +560,7 @@ impl Ctx {
             "SUMMARY property={} tier={} seed={} evaluations={} distinct_nontrivial={} violations={} known={} wall_s={:.1}",
             self.prop,
             self.tier.name(),
-            self.seed,
+            self.base_seed,
             g.evaluations,
             nontrivial,
             by_sig.len(),
@@ -629,7 +648,7 @@ fn load_known(verif_dir: &str, prop: &str) -> Vec<KnownFinding> {
 /// dependencies is logged and inconclusive; a Miri that cannot be started is inconclusive.
 pub fn miri_lane(ctx: &Ctx, lane: &'static str, many_seeds: u32) {
     let wanted = ctx.tier == Tier::Thorough || std::env::var("VERIF_MIRI").is_ok();
-    if !wanted || ctx.replay.is_some() {
+    if !wanted || ctx.replay.is_some() || ctx.round > 0 {
         return;
     }
     let dir = format!("{}/miri_lane", ctx.verif_dir);
